@@ -513,6 +513,17 @@ def verify_config(contract, cfg, both=False, z3_timeout=None):
                     from .solve import Verdict
                     res.verdicts.append(Verdict('bounded:emitted-text-on-all-small-child-behaviours', 'post', 'sat', 'native-enumeration', 0.0,
                                                 model=None, note={'reproduced': True, 'violated': bad[:2], 'bound': bound, 'tried': tried}))
+        if both and not open_ and res.error is None:
+            # thorough tier: CPython cross-check of the engine - everything was PROVED, so no contract-conforming child behaviour may
+            # make the natively executed text disagree with the reference; a disagreement is a fault of the checker (exit 3)
+            from . import replay as _rp
+            try:
+                bad, tried, bound = _rp.bounded_fragment(cx, contract, limit=1500)
+            except Exception as e:
+                bad, tried, bound = [], 0, f'crashed: {type(e).__name__}: {e}'
+            res.stats['cpython_crosscheck'] = {'tried': tried, 'bound': bound, 'disagreements': len(bad)}
+            if bad:
+                res.error = ('crash', f'UNSOUND: all VCs proved but the native run disagrees with the reference: {bad[0]}')
         for name, sts in mustfail.items():
             # G-end-off-by-one is legitimately provable when the unit can never succeed (Fail): only flag it when some path can succeed
             if sts and all(x == 'unsat' for x in sts):
